@@ -245,6 +245,20 @@ Proof.
     + rewrite Forall_map. rewrite forallb_forall in Hw. rewrite Forall_forall in *. simpl. auto.
 Qed.
 
+Lemma wfx_raw_wf t : wfx t -> wf_dm (raw t) = true.
+Proof.
+  induction t using xt_ind2; intro Hw; inversion Hw as [v0 Hs | l0 Hl | m0 Hu Hm | c0 t0 Ht]; subst; simpl.
+  - destruct v; try reflexivity; discriminate.
+  - rewrite forallb_forall. intros y Hy. apply in_map_iff in Hy as [x [<- Hx]].
+    rewrite Forall_forall in *. auto.
+  - rewrite uniqb_map, Hu. simpl. rewrite forallb_forall. intros y Hy.
+    apply in_map_iff in Hy as [x [<- Hx]]. rewrite Forall_forall in *. simpl. auto.
+  - reflexivity.
+Qed.
+
+(* the callback is only ever shown nodes with unique keys; what it hands back must be such too *)
+Definition owf (x : option dm) : Prop := match x with Some d => wf_dm d = true | None => True end.
+
 Section Canon.
   Variable ltb : bytes -> bytes -> bool.
 
